@@ -98,8 +98,8 @@ mut("C04", "parallel-grow-completion-order", CROP,
     "        results_it = (f.result() for f in sorted(fs, key=lambda f: not f.done()))\n",
     "needs grow(num_workers=...) with out-of-order completion")
 mut("C04", "sower-drops-overfill-batch", CROP,
-    "        # Make sure any overfill also saved\n        if self._batch_cases:\n            self.save_batch()\n",
-    "        # Make sure any overfill also saved\n        if len(self._batch_cases) > 1:\n            self.save_batch()\n",
+    "        if (exception_type is None) and self._batch_cases:\n            self.save_batch()\n",
+    "        if (exception_type is None) and len(self._batch_cases) > 1:\n            self.save_batch()\n",
     "needs batchsize with a remainder of exactly one setting")
 # ----------------------------------------------------------------------- C05
 mut("C05", "overwrite-policies-swapped", FARM,
